@@ -6,6 +6,7 @@ pub mod obs;
 pub mod model;
 #[macro_use]
 pub mod codecs;
+pub mod custom;
 pub mod fuzzdec;
 pub mod gen;
 #[cfg(feature = "kmer-tables")]
